@@ -258,7 +258,8 @@ func c14Exec(cs c14Case) (*fw.Violation, *harness.Server, int64) {
 			}
 		case "padding-only":
 			sid := open()
-			for i := 0; i < 40; i++ {
+			// more padding on ONE stream than its window holds: it has to come back
+			for i := 0; int64(i)*256 < 2*s.init+65536; i++ {
 				if r, d := s.send(sid, nil, false, 255); r != "" {
 					return mk(r, d), h, s.sent
 				}
@@ -370,3 +371,8 @@ func replayC14(raw json.RawMessage) (string, bool) {
 	}
 	return fmt.Sprintf("sender never starved over %d bytes", sent), false
 }
+
+var (
+	runC14Client    func(c *fw.Ctx)
+	replayC14Client func(raw json.RawMessage) (string, bool)
+)
